@@ -4,7 +4,7 @@ use super::common::*;
 use crate::ast::{render_canonical, Expr, Lit};
 use crate::decimal::parse_printed;
 use crate::gen::{self, LitCfg, TreeCfg};
-use crate::runner::{guarded, watch_begin, watch_end, CaseReport, Ctx};
+use crate::runner::{guarded, pick_idx, watch_begin, watch_end, CaseReport, Ctx};
 use anything::rational::DisplaySpec;
 use anything::{Db, Options};
 use codespan_reporting::diagnostic::{Diagnostic, Label};
@@ -489,7 +489,21 @@ fn queries() -> impl Strategy<Value = CliCase> {
                 .collect::<Vec<_>>()
                 .join(" ")
         });
+    // facts only inside the arguments of the rounding functions (never in an exponent or a digits argument: those
+    // multiply for ever): the binary must find them as the library does
+    let fact_in_call = (any::<u16>(), prop_oneof![Just("round"), Just("floor"), Just("ceil")], 0u8..5, gen::small_lit()).prop_map(|(i, f, form, l)| {
+        let p = super::c13::pool();
+        let ph = &p.all[pick_idx(i, p.all.len())].0;
+        match form {
+            0 => format!("{}({})", f, ph),
+            1 => format!("32500 / {}({})", f, ph),
+            2 => format!("{}(2 * ({}))", f, ph),
+            3 => format!("(1 m) ({}({}))", f, ph),
+            _ => format!("{}({}) * {}", f, ph, l.text),
+        }
+    });
     prop_oneof![
+        1 => fact_in_call,
         2 => same_unit_run,
         3 => gen::num_expr(small).prop_map(|e| render_canonical(&e)),
         3 => super::c02::pair().prop_map(|p| render_canonical(&super::c02::expr_of(&p))),
@@ -515,7 +529,7 @@ fn queries() -> impl Strategy<Value = CliCase> {
 }
 
 pub fn run_check(ctx: &Ctx) {
-    ctx.set_rule("queries from the other generators (numeric trees, commensurable/incommensurable pairs, quantity products, fact expressions, multi-result queries, single pluralisable units with value 1 and not 1, runs of two to six results that carry one and the same unit with values one and not one next to each other and failures in between, denominator-only units, error inputs, printable-ASCII noise) are run through the real `any` binary (compiled from /repo/src/bin/any.rs) in default and --exact mode under a private XDG_DATA_HOME; stdout must equal, byte for byte, the text the harness prints from the library's results (numerator[/denominator]; 12-digit rendering that also satisfies C08's oracle; space iff the unit has a numerator; pluralised iff value != 1; codespan diagnostics for errors; later results still printed) and the exit status must be 0; non-trivial = output has a unit, several results or an error block; distinct by query text; one query in five also runs under another locale or with RUST_LOG=trace (stdout must not change)");
+    ctx.set_rule("queries from the other generators (numeric trees, commensurable/incommensurable pairs, quantity products, fact expressions, facts that occur only inside the arguments of round/floor/ceil, multi-result queries, single pluralisable units with value 1 and not 1, runs of two to six results that carry one and the same unit with values one and not one next to each other and failures in between, denominator-only units, error inputs, printable-ASCII noise) are run through the real `any` binary (compiled from /repo/src/bin/any.rs) in default and --exact mode under a private XDG_DATA_HOME; stdout must equal, byte for byte, the text the harness prints from the library's results (numerator[/denominator]; 12-digit rendering that also satisfies C08's oracle; space iff the unit has a numerator; pluralised iff value != 1; codespan diagnostics for errors; later results still printed) and the exit status must be 0; non-trivial = output has a unit, several results or an error block; distinct by query text; one query in five also runs under another locale or with RUST_LOG=trace (stdout must not change)");
     ctx.assume("the binary is compiled from the unmodified source file /repo/src/bin/any.rs as a [[bin]] of the harness crate, linked against the same build of the library");
     let corpus: Vec<(String, CliCase)> = load_corpus("C19");
     let cases: Vec<CliCase> = corpus.into_iter().map(|c| c.1).collect();
